@@ -274,6 +274,8 @@ func (s *Service) handleBatchPickup(msg service.DIDCommMsg, myDID, theirDID stri
 		end = 0
 	}
 
+	held := msgs
+
 	outbox.LastDeliveredTime = time.Now()
 	outbox.LastRemovedTime = time.Now()
 
@@ -305,7 +307,20 @@ func (s *Service) handleBatchPickup(msg service.DIDCommMsg, myDID, theirDID stri
 		return fmt.Errorf("parse batch into didcomm msg map: %w", err)
 	}
 
-	return s.outbound.SendToDID(msgMap, myDID, theirDID)
+	err = s.outbound.SendToDID(msgMap, myDID, theirDID)
+	if err != nil {
+		// the batch was not handed over: keep the messages in the inbox
+		if e := outbox.EncodeMessages(held); e == nil {
+			e = s.putInbox(theirDID, outbox)
+			if e != nil {
+				logger.Errorf("batch pickup restore inbox: %s", e)
+			}
+		}
+
+		return err
+	}
+
+	return nil
 }
 
 func (s *Service) handleBatch(msg service.DIDCommMsg) error {
